@@ -17,28 +17,29 @@ def configure_rules(oConfig, oRules, configuration, iIndex, sFileName):
     sFileName = sFileName.replace(os.sep, "/")
 
     configure_rules_per_rule_option(oConfig, oRules)
-    configure_rules_per_file_list_option(oRules, configuration, iIndex, sFileName)
-    configure_rules_per_file_rules_option(oRules, configuration, iIndex, sFileName)
+    configure_rules_per_file_list_option(oRules, configuration, iIndex, sFileName, oConfig.severity_list)
+    configure_rules_per_file_rules_option(oRules, configuration, iIndex, sFileName, oConfig.severity_list)
 
 
 def configure_rules_per_rule_option(oConfig, oRules):
     oRules.configure(oConfig)
 
 
-def configure_rules_per_file_list_option(oRules, configuration, iIndex, sFileName):
-    configure_rules_per_option(oRules, configuration, iIndex, sFileName, "file_list")
+def configure_rules_per_file_list_option(oRules, configuration, iIndex, sFileName, oSeverityList=None):
+    configure_rules_per_option(oRules, configuration, iIndex, sFileName, "file_list", oSeverityList)
 
 
-def configure_rules_per_file_rules_option(oRules, configuration, iIndex, sFileName):
-    configure_rules_per_option(oRules, configuration, iIndex, sFileName, "file_rules")
+def configure_rules_per_file_rules_option(oRules, configuration, iIndex, sFileName, oSeverityList=None):
+    configure_rules_per_option(oRules, configuration, iIndex, sFileName, "file_rules", oSeverityList)
 
 
-def configure_rules_per_option(oRules, configuration, iIndex, sFileName, section):
+def configure_rules_per_option(oRules, configuration, iIndex, sFileName, section, oSeverityList=None):
     if is_filename_in_option(configuration, section, sFileName):
         iMyIndex = get_index_of_filename_in_file_list(configuration, section, sFileName)
         if does_file_have_rule_configuration(configuration, section, iMyIndex, sFileName):
             oRuleConfig = config.config()
             oRuleConfig.dConfig = configuration[section][iMyIndex][sFileName]
+            oRuleConfig.severity_list = oSeverityList
             oRules.configure(oRuleConfig)
 
 
